@@ -319,6 +319,21 @@ func mirrorExec(c *Ctx, op string) {
 		if err4 != nil || pan4 != "" {
 			c.PropFail("mirror-again-failed", "mirroring again (no sources) did not succeed as a no-op", op)
 		}
+		// … and needs nothing of the target but what is there: the target made read-only (a read-only bind mount over it)
+		if err4 == nil && pan4 == "" && !(tgtOther && tgtKind == "file") {
+			if e1 := syscall.Mount(tgt, tgt, "", syscall.MS_BIND, ""); e1 == nil {
+				if e2 := syscall.Mount("", tgt, "", syscall.MS_BIND|syscall.MS_REMOUNT|syscall.MS_RDONLY, ""); e2 == nil {
+					_, err5, pan5 := safeCall(func() (api.WareID, error) {
+						return fn.mirror(ctx, id, whAddr(tgtKind, tgt), nil, rio.Monitor{})
+					})
+					if err5 != nil || pan5 != "" {
+						c.PropFail("mirror-again-failed", fmt.Sprintf("mirroring again (no sources) into a target that holds W but has become read-only did not succeed as a no-op: %v %s", err5, pan5), op)
+					}
+					c.H("again-readonly")
+				}
+				syscall.Unmount(tgt, syscall.MNT_DETACH)
+			}
+		}
 		tb, _ := os.ReadFile(final)
 		if fmtName == "tar" && !otherAtAddr && !bytes.HasPrefix(good, tb[:min(len(tb), len(good))]) {
 			c.PropFail("mirror-not-identical", "the bytes at the target are not a prefix of the source ware", op)
